@@ -24,6 +24,19 @@ def check(run):
     if not bad.get("violated"):
         raise Inconclusive("Pool.tla with WritesNew=TRUE should violate NoPlainConflict")
     run.notes.append("Pool.tla with WritesNew=TRUE (per-call write of pool.New) violates NoPlainConflict as expected")
+    if not q:
+        # unbounded in the length of the behaviour: an inductive invariant of the pool's hand-out discipline (4 goroutines, 6 items),
+        # discharged by Apalache in three obligations, with a weakened invariant as negative control
+        c4 = ["--cinit=CInit"]
+        ok1, _ = apalache(run, "atomics", "PoolInd", c4 + ["--init=Init", "--inv=IndInv", "--length=0"])
+        ok2, _ = apalache(run, "atomics", "PoolInd", c4 + ["--init=IndInit", "--inv=IndInv", "--length=1"])
+        ok3, _ = apalache(run, "atomics", "PoolInd", c4 + ["--init=IndInit", "--inv=Props", "--length=0"])
+        weak, _ = apalache(run, "atomics", "PoolInd", c4 + ["--init=WeakInit", "--inv=WeakInv", "--length=1"])
+        if not (ok1 and ok2 and ok3) or weak:
+            raise Inconclusive("PoolInd.tla: inductive invariant obligations Init=>Inv %s, Inv/\\Next=>Inv' %s, Inv=>Props %s; weakened invariant "
+                               "inductive (should not be): %s" % (ok1, ok2, ok3, weak))
+        run.notes.append("Apalache: IndInv of PoolInd.tla is inductive for 4 goroutines / 6 items and implies NoDoubleHandOut and Disjoint "
+                         "(behaviours of any length); the weakened invariant (without 'every item <= fresh') is rejected as expected")
     # ---- AtomicValue: sequential tour of the register graph for int, string and a struct type ----
     paths, st = tour(mc["edges"], [0], run.rng, max_len=25)
     plans = []
